@@ -981,6 +981,9 @@ func (e *Exec) anchorScope(st *State, args []Val, fnv *Val) map[string]Val {
 	if fnv != nil {
 		scope["recv"] = *fnv
 	}
+	if e.selBlocking != "" {
+		scope["blocking"] = Val{T: []string{e.selBlocking}, Typ: types.Typ[types.Bool]}
+	}
 	return scope
 }
 
